@@ -10,7 +10,7 @@
     formatter [F] writes for plan [p]; [planned o d p] = the planned commands as [Scanner.emit]
     reports them (the default delimiter stays in the text). *)
 From Coq Require Import List NArith ZArith Bool String.
-From Atlas Require Import Base.Bytes Lex.LexModel Lex.ClosedModel Lex.FmtModel Lex.QuoteModel Lex.QuoteProofs Lex.ClosedProofs Lex.FmtProofs Lex.FmtRefuted gen.Gen_ScanOpts.
+From Atlas Require Import Base.Bytes Lex.LexModel Lex.ClosedModel Lex.FmtModel Lex.QuoteModel Lex.QuoteProofs Lex.ClosedNLModel Lex.ClosedProofs Lex.FmtProofs Lex.FmtGooseProofs Lex.FmtRefuted gen.Gen_ScanOpts.
 Import ListNotations.
 
 (** Full statement 3 (every identifier the builder quotes is a closed token) is FALSE of the
@@ -170,6 +170,7 @@ Lemma up_golang now p : up_content FGolangMigrate now p = tool_up p. Proof. refl
 Lemma up_flyway now p : up_content FFlyway now p = tool_up p. Proof. reflexivity. Qed.
 Lemma up_liquibase now p : up_content FLiquibase now p = liquibase_content now p. Proof. reflexivity. Qed.
 Lemma up_dbmate now p : up_content FDBMate now p = dbmate_content p. Proof. reflexivity. Qed.
+Lemma up_goose now p : up_content FGoose now p = goose_content p. Proof. reflexivity. Qed.
 Lemma texts_of_eq r : texts_of r = texts (of_scan r). Proof. reflexivity. Qed.
 Lemma roundtrip_eq F o now p : roundtrip F o now p = texts (read F o (up_content F now p)). Proof. reflexivity. Qed.
 Lemma planned_eq o d p : planned o d p = Some (map (fun c => stmt_text o d (c_cmd c)) (p_changes p)).
@@ -248,27 +249,37 @@ Example C07_roundtrip_tools_nonvacuous :
       = Some [bs "CREATE TABLE ""t;"" (c text DEFAULT 'a''b;');"%string].
 Proof. split; vm_compute; reflexivity. Qed.
 
-(** Statement 4a — C07_goose_dbmate_reader (partial).  Full statement: the Goose and DBMate readers
-    (line filters in front of the generic scanner) return the planned commands for every plan of
-    [scan_closed opts_generic] commands.  It is false (C07_goose_dbmate_line_filter_refuted).
-    Proved: the DBMate reader, for all plans whose up section passes the decidable line condition
-    [dbmate_ok] (no line contains "down" or "-- migrate:up" or starts with "-- migrate:", no
-    carriage return).  Missing: the Goose reader (its statements are delimited by an inserted
-    "-- ATLAS_DELIM_END" line after every line ending in ';'; covered by the tie and the oracle
-    only: 3 197 plans per quick run). *)
-Theorem C07_goose_dbmate_reader_partial : forall o now p,
-  Forall (fun c => scan_closed opts_generic semi (c_cmd c) = true /\ comment_ok2 (c_comment c) = true) (p_changes p) ->
-  dbmate_ok (tool_up p) = true ->
-  roundtrip FDBMate o now p = planned opts_generic semi p.
+(** Statement 4a — C07_goose_dbmate_reader.  Full statement: the Goose and DBMate readers (line
+    filters in front of the generic scanner) return the planned commands for every plan of
+    [scan_closed opts_generic] commands.  It is FALSE (C07_goose_dbmate_line_filter_refuted).  What
+    holds, for ALL plans, under decidable conditions on the bytes the formatter writes:
+    - DBMate: [dbmate_ok] (no line contains "down" or "-- migrate:up" or starts with "-- migrate:",
+      no carriage return);
+    - Goose: [goose_plan_ok] = per change: [goose_change_ok] (every line of the change is copied
+      unchanged by GooseFile.StmtDecls — no pragma word, no trailing white space —, the
+      "-- ATLAS_DELIM_END" line is inserted exactly once, after the last line, no carriage return,
+      the comment line does not read as the delimiter line), a newline-free comment, and the
+      command followed by ';' is closed for the generic scanner with that delimiter on the next
+      line ([scan_closed_nl], ClosedNLModel.v). *)
+Theorem C07_goose_dbmate_reader_except : forall o now p,
+  (Forall (fun c => scan_closed opts_generic semi (c_cmd c) = true /\ comment_ok2 (c_comment c) = true) (p_changes p) ->
+   dbmate_ok (tool_up p) = true ->
+   roundtrip FDBMate o now p = planned opts_generic semi p)
+  /\ (goose_plan_ok p -> roundtrip FGoose o now p = planned opts_generic semi p).
 Proof.
-  rewrite semi_eq. intros o now p Hall Hok. rewrite roundtrip_eq, up_dbmate, planned_eq.
-  exact (dbmate_roundtrip o p Hall Hok).
+  intros o now p. rewrite semi_eq. split.
+  - intros Hall Hok. rewrite roundtrip_eq, up_dbmate, planned_eq. exact (dbmate_roundtrip o p Hall Hok).
+  - intros Hok. rewrite roundtrip_eq, up_goose, planned_eq. exact (goose_roundtrip o p Hok).
 Qed.
-Print Assumptions C07_goose_dbmate_reader_partial.
+Print Assumptions C07_goose_dbmate_reader_except.
 Example C07_goose_dbmate_reader_nonvacuous :
-  dbmate_ok (tool_up (mkPlan [] [] [] [] [mkChange (bs "CREATE TABLE ""t;"" (c text DEFAULT 'a''b;')"%string) (bs "create t"%string) []])) = true
-  /\ dbmate_ok (tool_up w_dbmate_plan) = false.
-Proof. vm_compute. split; reflexivity. Qed.
+  dbmate_ok (tool_up ex_tool_plan) = true
+  /\ dbmate_ok (tool_up w_dbmate_plan) = false
+  /\ forallb (fun c => goose_change_ok c && comment_ok (c_comment c)
+                      && scan_closed_nl opts_generic GOOSE_DELIM (c_cmd c ++ [59%N])) (p_changes ex_tool_plan) = true
+  /\ forallb goose_change_ok (p_changes w_goose_plan) = false
+  /\ roundtrip FGoose opts_postgres [] ex_tool_plan = planned opts_generic semi ex_tool_plan.
+Proof. repeat split; vm_compute; reflexivity. Qed.
 
 (** the single-statement core, against the scanner model of C08: a closed command followed by the
     delimiter and a newline is read as exactly one statement with that text, at that offset,
